@@ -20,11 +20,26 @@ Theorem C05_int_overflow_is_float : forall a b,
 Proof. intros; split; [apply vadd_int_overflow | apply vmul_int_overflow]. Qed.
 Print Assumptions C05_int_overflow_is_float.
 
-(** division and mixed arithmetic are IEEE double ... *)
+(** division and mixed arithmetic are IEEE double ... (a date converts to a number - num(date) is its epoch
+    milliseconds - but is no operand of the numeric fallback: fixes 9840533, 4e663c3) *)
 Theorem C05_div_mixed_ieee : forall l r a b,
+  is_date l = false -> is_date r = false ->
   to_f64 l = Ok a -> to_f64 r = Ok b -> vdiv l r = Ok (from_float (fdiv a b)).
 Proof. exact vdiv_numbers. Qed.
 Print Assumptions C05_div_mixed_ieee.
+
+(** two dates cannot be added, a date cannot be scaled or divided - while num(date) is a number *)
+Theorem C05_dates_are_no_numeric_operands : forall op l r,
+  is_date l = true \/ is_date r = true -> binary_op op l r = Err.
+Proof. intros op l r [H|H]; unfold binary_op; rewrite H; [reflexivity|]. now rewrite orb_true_r. Qed.
+Print Assumptions C05_dates_are_no_numeric_operands.
+Example C05_date_arithmetic :
+  vadd (VDate 1000000000) (VDate 3000000000) = Err /\ vmul (VDate 1000000000) (VInt 2) = Err /\
+  vdiv (VDate 1000000000) (VInt 1000) = Err /\
+  vsub (VDate 3000000000) (VDate 1000000000) = Ok (VDur 2000000000) /\
+  vadd (VDate 1000000000) (VDur 1000000000) = Ok (VDate 2000000000) /\
+  to_f64 (VDate 1000000000) = Ok (f_of_Z 1000).
+Proof. vm_compute. repeat split. Qed.
 
 Theorem C05_mixed_add : forall z f g,
   vadd (VInt z) (VFloat f) = Ok (from_float (fadd (f_of_Z z) f)) /\
